@@ -279,9 +279,9 @@ class ULPIRxEventDecoder(Elaboratable):
         O: vbus_valid      -- True iff a valid VBUS voltage is present
         O: session_end     -- True iff a session has just ended.
 
-        # Strobes indicating signal changes.
-        O: rx_start        -- True iff an RxEvent has changed the value of RxActive from 0 -> 1.
-        O: rx_stop         -- True iff an RxEvent has changed the value of RxActive from 1 -> 0.
+        # Strobes indicating the RxActive value of each RxEvent.
+        O: rx_start        -- True for a cycle after each RxEvent that reports RxActive = 1.
+        O: rx_stop         -- True for a cycle after each RxEvent that reports RxActive = 0.
     """
 
     def __init__(self, *, ulpi_bus):
@@ -335,11 +335,12 @@ class ULPIRxEventDecoder(Elaboratable):
         with m.If(receiving & ~self.ulpi.nxt.i & ~self.register_operation_in_progress):
             m.d.usb += self.last_rx_command.eq(self.ulpi.data.i)
 
-            # If RxActive has just changed, strobe the start or stop signals,
+            # Strobe the start or stop signal, according to the RxActive bit. We don't compare with
+            # the previous RxCmd: a receive can also start with DIR+NXT, and end with DIR dropping.
             rx_active = self.ulpi.data.i[4]
-            with m.If(~self.rx_active & rx_active):
+            with m.If(rx_active):
                 m.d.usb += self.rx_start.eq(1)
-            with m.If(self.rx_active & ~rx_active):
+            with m.If(~rx_active):
                 m.d.usb += self.rx_stop.eq(1)
 
 
@@ -949,10 +950,11 @@ class UTMITranslator(Elaboratable):
         # interface, as it's essentially the same as in the UTMI spec. We'll
         # add a one cycle processing delay so it matches the rest of our signals.
 
-        # RxValid: equivalent to NXT whenever a Rx is active.
+        # RxValid: equivalent to NXT whenever a Rx is active -- including the cycle right
+        # after the RxCmd that starts it, in which rx_active hasn't caught up yet.
         m.d.usb += [
             self.rx_data   .eq(self.ulpi.data.i),
-            self.rx_valid  .eq(self.ulpi.nxt.i & self.rx_active)
+            self.rx_valid  .eq(self.ulpi.nxt.i & (self.rx_active | rxevent_decoder.rx_start))
         ]
 
         return m
